@@ -162,6 +162,12 @@ def retarder (c s : K) (p x : Cx K) : J2 K :=
    Cx.smul (c * s) ((p - pm) * x),
    Cx.smul (s * s) p + Cx.smul (c * c) pm⟩
 
+/-- `HalfWavePlate(θ)` = `LinearRetarder(π, θ)`: the retarder at `exp(iφ/2) = i`, `exp(iχ) = 1` (also `GeometricPhaseElement`). -/
+def halfWavePlate [OfNat K 1] (c s : K) : J2 K := retarder c s ⟨0, 1⟩ ⟨1, 0⟩
+
+/-- `QuarterWavePlate(θ)` = `LinearRetarder(π/2, θ)`: `exp(iφ/2) = h + h i` with `h = √½` supplied. -/
+def quarterWavePlate [OfNat K 1] (c s h : K) : J2 K := retarder c s ⟨h, h⟩ ⟨1, 0⟩
+
 /-- `LinearPolarizer.jones_matrix`: `[[c², cs], [cs, s²]]`. -/
 def polarizer (c s : K) : J2 K := ⟨⟨c * c, 0⟩, ⟨c * s, 0⟩, ⟨c * s, 0⟩, ⟨s * s, 0⟩⟩
 
